@@ -577,6 +577,38 @@ static void check_add_function() {
     first = false;
 }
 
+// "or clearing": the method catalog is cleared while methods and their
+// definitions are alive; a definition destroyed afterwards still leaves its
+// method's catalog, and the remaining ones are enumerated as before
+static void check_clear_then_destroy() {
+    set_current("B catalog cleared");
+    for (int first_gone : {5, 6}) {
+        B b;
+        b.fresh();
+        b.toggle(3);
+        b.toggle(4);
+        b.toggle(5);
+        b.toggle(6);
+        b.toggle(7);
+        b.check();
+        PB::methods.clear();
+        ++g_transitions;
+        b.methods.clear();
+        b.check();
+        b.toggle(first_gone); // destroys a definition record of method 3
+        b.check();
+        b.toggle(7);
+        b.check();
+        b.toggle(first_gone == 5 ? 6 : 5);
+        b.check();
+        // a definition can be registered again on the unlisted method
+        b.toggle(5);
+        b.check();
+        b.toggle(5);
+        b.check();
+    }
+}
+
 // one function may be the definition of several methods: each method's catalog
 // holds its own live record for it
 struct key0b;
@@ -636,6 +668,8 @@ int main(int argc, char** argv) {
             check_add_function();
         } else if (what.rfind("B shared function", 0) == 0) {
             check_shared_function();
+        } else if (what.rfind("B catalog cleared", 0) == 0) {
+            check_clear_then_destroy();
         }
         for (auto& v : g_viol)
             printf("VIOL\t%s\n", v.c_str());
@@ -680,6 +714,7 @@ int main(int argc, char** argv) {
     all_sequences_B(lenB);
     check_add_function();
     check_shared_function();
+    check_clear_then_destroy();
     for (auto& s : samples)
         printf("SAMPLE\t%s\n", s.c_str());
     printf(
